@@ -606,6 +606,30 @@ pub fn run_c13(tier: Tier) -> i32 {
         nviol += 1;
         break;
     }
+    // a key table that grows large and shrinks (sizes around the capacities at which the table is
+    // compacted), few survivors
+    let mut many_cases = 0u32;
+    'many: for keys in [10u32, 100, 895, 1000, 1793, 2000, 4000] {
+        for survivors in [1u32, 10] {
+            many_cases += 1;
+            let r = std::panic::catch_unwind(|| many_keys_case(keys, survivors));
+            let msg = match r {
+                Ok(None) => continue,
+                Ok(Some(m)) => m,
+                Err(_) => format!("C13-panic|{keys} keys, {survivors} survivors: panic: {}", crate::mock::take_panic()),
+            };
+            let (sig, text) = msg.split_once('|').map(|(a, b)| (a.to_string(), b.to_string())).unwrap_or(("C13-many-keys".into(), msg.clone()));
+            let dir = verif_dir().join("replays").join("C13");
+            let _ = std::fs::create_dir_all(&dir);
+            let path = dir.join(format!("{sig}-many-keys-{keys}-{survivors}.json"));
+            let doc = json!({"property": "C13", "harness": "limits_key/many-keys", "signature": sig, "message": text, "n": 1, "keys": keys, "survivors": survivors, "history": []});
+            std::fs::write(&path, serde_json::to_string_pretty(&doc).unwrap()).unwrap();
+            println!("VIOLATION property=C13 replay={}", path.display());
+            eprintln!("  {sig}: {text}");
+            nviol += 1;
+            break 'many;
+        }
+    }
     let ev = json!({
         "property_id": "C13", "tier": tier.name(), "seed": seed(), "level": "model_checking",
         "coverage": {
@@ -758,8 +782,112 @@ pub fn spawned_reset_case(n: u32) -> Option<String> {
     })
 }
 
+/// A transport that does nothing, with a key.
+struct IdleEnd {
+    key: u32,
+}
+impl Stream for IdleEnd {
+    type Item = Result<ClientMessage<u32>, std::io::Error>;
+    fn poll_next(self: Pin<&mut Self>, _: &mut Context<'_>) -> Poll<Option<Self::Item>> {
+        Poll::Pending
+    }
+}
+impl Sink<Response<u32>> for IdleEnd {
+    type Error = std::io::Error;
+    fn poll_ready(self: Pin<&mut Self>, _: &mut Context<'_>) -> Poll<Result<(), Self::Error>> {
+        Poll::Ready(Ok(()))
+    }
+    fn start_send(self: Pin<&mut Self>, _: Response<u32>) -> Result<(), Self::Error> {
+        Ok(())
+    }
+    fn poll_flush(self: Pin<&mut Self>, _: &mut Context<'_>) -> Poll<Result<(), Self::Error>> {
+        Poll::Ready(Ok(()))
+    }
+    fn poll_close(self: Pin<&mut Self>, _: &mut Context<'_>) -> Poll<Result<(), Self::Error>> {
+        Poll::Ready(Ok(()))
+    }
+}
+
+/// A large key table that shrinks: `keys` distinct keys are admitted (limit n = 1) and held, all
+/// but `survivors` (spread evenly) are closed in one go, the listener is polled; then a second
+/// connection arrives for every surviving key (must be shed: its first channel is alive) and for
+/// a sample of closed keys (must be admitted). None = held; Some(message) = violated.
+pub fn many_keys_case(keys: u32, survivors: u32) -> Option<String> {
+    use tarpc::server::incoming::Incoming;
+    use tarpc::server::Channel;
+    type BC = BaseChannel<u32, u32, IdleEnd>;
+    let q: Rc<RefCell<VecDeque<BC>>> = Rc::new(RefCell::new(VecDeque::new()));
+    let q2 = q.clone();
+    let listener = futures::stream::poll_fn(move |_| match q2.borrow_mut().pop_front() {
+        Some(c) => Poll::Ready(Some(c)),
+        None => Poll::Pending,
+    });
+    let mut filter = Box::pin(listener.max_channels_per_key(1, |c: &BC| c.transport().key));
+    let waker = futures::task::noop_waker();
+    let mut cx = Context::from_waker(&waker);
+    let mut held: std::collections::BTreeMap<u32, _> = Default::default();
+    for k in 0..keys {
+        q.borrow_mut().push_back(BaseChannel::with_defaults(IdleEnd { key: k }));
+    }
+    for _ in 0..keys {
+        match filter.as_mut().poll_next(&mut cx) {
+            Poll::Ready(Some(c)) => {
+                let k = c.get_ref().transport().key;
+                held.insert(k, c);
+            }
+            _ => return Some(format!("{keys} connections with distinct keys, limit 1: only {} were admitted", held.len())),
+        }
+    }
+    let step = (keys / survivors.max(1)).max(1);
+    let keep: Vec<u32> = (0..survivors).map(|i| (i * step + step / 2).min(keys - 1)).collect();
+    held.retain(|k, _| keep.contains(k));
+    // the listener is polled: it processes the queued close notifications (nothing is waiting)
+    if let Poll::Ready(_) = filter.as_mut().poll_next(&mut cx) {
+        return Some("the limited stream yielded a channel although none was waiting".into());
+    }
+    // second connections
+    let closed_sample: Vec<u32> = (0..keys).filter(|k| !keep.contains(k)).step_by((keys as usize / 16).max(1)).collect();
+    let mut expect_admit = std::collections::BTreeSet::new();
+    for k in keep.iter().chain(closed_sample.iter()) {
+        q.borrow_mut().push_back(BaseChannel::with_defaults(IdleEnd { key: *k }));
+        if !keep.contains(k) {
+            expect_admit.insert(*k);
+        }
+    }
+    let mut admitted = std::collections::BTreeSet::new();
+    let mut second = vec![];
+    for _ in 0..(keep.len() + closed_sample.len() + 2) {
+        match filter.as_mut().poll_next(&mut cx) {
+            Poll::Ready(Some(c)) => {
+                admitted.insert(c.get_ref().transport().key);
+                second.push(c);
+            }
+            _ => break,
+        }
+    }
+    let over: Vec<u32> = admitted.iter().filter(|k| keep.contains(k)).copied().collect();
+    if !over.is_empty() {
+        return Some(format!("C13-over-limit|{keys} keys admitted (limit 1), all but {survivors} closed, the listener polled: a second connection was admitted for keys {:?} while their first channel is alive", &over[..over.len().min(6)]));
+    }
+    let shed: Vec<u32> = expect_admit.difference(&admitted).copied().collect();
+    if !shed.is_empty() {
+        return Some(format!("C13-shed-below-limit|{keys} keys admitted (limit 1), all but {survivors} closed, the listener polled: a new connection was shed for keys {:?} although no channel with those keys is alive", &shed[..shed.len().min(6)]));
+    }
+    None
+}
+
 pub fn replay_c13(doc: &serde_json::Value, path: &str) -> i32 {
     let n = doc["n"].as_u64().unwrap() as u32;
+    if doc["harness"].as_str() == Some("limits_key/many-keys") {
+        return match many_keys_case(doc["keys"].as_u64().unwrap() as u32, doc["survivors"].as_u64().unwrap() as u32) {
+            None => 0,
+            Some(m) => {
+                println!("violated: {m}");
+                println!("VIOLATION property=C13 replay={path}");
+                1
+            }
+        };
+    }
     if doc["harness"].as_str() == Some("limits_key/spawned") {
         return match spawned_reset_case(n) {
             None => 0,
